@@ -1,9 +1,9 @@
-import LymuiVerif.Gen.Model
+import LymuiVerif.Core.Hex
 import LymuiVerif.Lemmas.HexParse
 /-!
 # C15 — hexadecimal colour text: formatting and parsing
 
-About `Gen.Hex.from_Rgb` (`impl From<Rgb> for Hex`) and `Gen.Rgb.try_from_Hex`
+About `Gen.HexHand.Hex.from_Rgb` (`impl From<Rgb> for Hex`) and `Gen.HexHand.Rgb.try_from_Hex`
 (`impl TryFrom<Hex> for Rgb`), the hand model of `hex.rs` (`LymuiVerif/Core/Hex.lean`).
 Strings are lists of Unicode code points of ANY length and ANY content (multi-byte characters
 included); `String::len` and `str::get(a..b)` are byte based as in Rust.  No real numbers, core Lean only.
@@ -71,8 +71,8 @@ def spelled (s : Str) : Option (Nat × Nat × Nat) :=
 (the digit recogniser/value, `strip`, `String::len` of the model are the specification's) -/
 
 theorem model_digit (c : Nat) :
-    hexDigitVal c = if isHexDigit c then some (digitVal c) else none := by
-  unfold hexDigitVal isHexDigit digitVal
+    HexHand.hexDigitVal c = if isHexDigit c then some (digitVal c) else none := by
+  unfold HexHand.hexDigitVal isHexDigit digitVal
   by_cases h1 : 48 ≤ c ∧ c ≤ 57
   · simp [h1]
   · by_cases h2 : 97 ≤ c ∧ c ≤ 102
@@ -84,7 +84,7 @@ theorem model_digit (c : Nat) :
         simp [h2, h3, a1]
       · simp [h1, h2, h3]
 
-theorem model_strip (s : Str) : Hex.strip s = stripHash s := by
+theorem model_strip (s : Str) : HexHand.Hex.strip s = stripHash s := by
   match s with
   | [] => rfl
   | x :: l =>
@@ -101,19 +101,19 @@ theorem model_byteLen (s : Str) : Str.byteLen s = byteLength s := by
   | nil => rfl
   | cons c cs ih => simp only [Str.byteLen, byteLength, ih]; rfl
 
-theorem model_read6 (t : Str) : Lemmas.Hex.read6 hexDigitVal t = spelled6 t := by
+theorem model_read6 (t : Str) : Lemmas.Hex.read6 HexHand.hexDigitVal t = spelled6 t := by
   match t with
   | [] => rfl
   | [_] => rfl
-  | [a, b] => cases h : hexDigitVal a <;> cases h' : hexDigitVal b <;>
+  | [a, b] => cases h : HexHand.hexDigitVal a <;> cases h' : HexHand.hexDigitVal b <;>
       simp [Lemmas.Hex.read6, Lemmas.Hex.take2, Lemmas.Hex.pair, spelled6, h, h']
-  | [a, b, _] => cases h : hexDigitVal a <;> cases h' : hexDigitVal b <;>
+  | [a, b, _] => cases h : HexHand.hexDigitVal a <;> cases h' : HexHand.hexDigitVal b <;>
       simp [Lemmas.Hex.read6, Lemmas.Hex.take2, Lemmas.Hex.pair, spelled6, h, h']
-  | [a, b, c, d] => cases h : hexDigitVal a <;> cases h' : hexDigitVal b <;>
-      cases h2 : hexDigitVal c <;> cases h3 : hexDigitVal d <;>
+  | [a, b, c, d] => cases h : HexHand.hexDigitVal a <;> cases h' : HexHand.hexDigitVal b <;>
+      cases h2 : HexHand.hexDigitVal c <;> cases h3 : HexHand.hexDigitVal d <;>
       simp [Lemmas.Hex.read6, Lemmas.Hex.take2, Lemmas.Hex.pair, spelled6, h, h', h2, h3]
-  | [a, b, c, d, _] => cases h : hexDigitVal a <;> cases h' : hexDigitVal b <;>
-      cases h2 : hexDigitVal c <;> cases h3 : hexDigitVal d <;>
+  | [a, b, c, d, _] => cases h : HexHand.hexDigitVal a <;> cases h' : HexHand.hexDigitVal b <;>
+      cases h2 : HexHand.hexDigitVal c <;> cases h3 : HexHand.hexDigitVal d <;>
       simp [Lemmas.Hex.read6, Lemmas.Hex.take2, Lemmas.Hex.pair, spelled6, h, h', h2, h3]
   | d0 :: d1 :: d2 :: d3 :: d4 :: d5 :: _ =>
     simp only [Lemmas.Hex.read6, Lemmas.Hex.take2, Lemmas.Hex.pair, spelled6, model_digit]
@@ -121,7 +121,7 @@ theorem model_read6 (t : Str) : Lemmas.Hex.read6 hexDigitVal t = spelled6 t := b
       by_cases h3 : isHexDigit d3 <;> by_cases h4 : isHexDigit d4 <;> by_cases h5 : isHexDigit d5 <;>
       simp [h0, h1, h2, h3, h4, h5]
 
-theorem model_read3 (t : Str) : Lemmas.Hex.read3 hexDigitVal t = spelled3 t := by
+theorem model_read3 (t : Str) : Lemmas.Hex.read3 HexHand.hexDigitVal t = spelled3 t := by
   match t with
   | [] => rfl
   | [_] => rfl
@@ -136,8 +136,8 @@ theorem model_read3 (t : Str) : Lemmas.Hex.read3 hexDigitVal t = spelled3 t := b
 /-- **Totality** (the hex part of C04): on every string the parser returns `Ok` or `Err`, and which of
 the two is decided by `spelled`. -/
 theorem parse_spec (s : Str) :
-    (∃ r g b, Rgb.try_from_Hex ⟨s⟩ = .ok ⟨r, g, b⟩ ∧ spelled s = some (r, g, b)) ∨
-    (∃ e, Rgb.try_from_Hex ⟨s⟩ = .error e ∧ spelled s = none) := by
+    (∃ r g b, HexHand.Rgb.try_from_Hex ⟨s⟩ = .ok ⟨r, g, b⟩ ∧ spelled s = some (r, g, b)) ∨
+    (∃ e, HexHand.Rgb.try_from_Hex ⟨s⟩ = .error e ∧ spelled s = none) := by
   have h := Lemmas.Hex.try_from_Hex_eq s
   simp only [model_read6, model_read3, model_strip, model_byteLen] at h
   exact h
@@ -145,7 +145,7 @@ theorem parse_spec (s : Str) :
 /-- **parse_faithful + parse_complete**: parsing succeeds with colour `c` exactly when the text
 spells `c` (any string: any code points, any length). -/
 theorem parse_iff (s : Str) (c : Rgb) :
-    Rgb.try_from_Hex ⟨s⟩ = .ok c ↔ spelled s = some (c.r, c.g, c.b) := by
+    HexHand.Rgb.try_from_Hex ⟨s⟩ = .ok c ↔ spelled s = some (c.r, c.g, c.b) := by
   rcases parse_spec s with ⟨r, g, b, h1, h2⟩ | ⟨e, h1, h2⟩
   · rw [h1, h2]
     constructor
@@ -158,22 +158,22 @@ theorem parse_iff (s : Str) (c : Rgb) :
 
 /-- whenever parsing succeeds, the result is the colour spelled by the leading digits of the text
 (doubled when the text is the short form) -/
-theorem parse_faithful (s : Str) (c : Rgb) (h : Rgb.try_from_Hex ⟨s⟩ = .ok c) :
+theorem parse_faithful (s : Str) (c : Rgb) (h : HexHand.Rgb.try_from_Hex ⟨s⟩ = .ok c) :
     spelled s = some (c.r, c.g, c.b) := (parse_iff s c).1 h
 
 /-- a text that spells a colour is accepted and yields that colour -/
 theorem parse_complete (s : Str) (r g b : Nat) (h : spelled s = some (r, g, b)) :
-    Rgb.try_from_Hex ⟨s⟩ = .ok ⟨r, g, b⟩ := (parse_iff s ⟨r, g, b⟩).2 h
+    HexHand.Rgb.try_from_Hex ⟨s⟩ = .ok ⟨r, g, b⟩ := (parse_iff s ⟨r, g, b⟩).2 h
 
 /-- a text that does not spell a colour is rejected with an error, never mapped to a colour -/
-theorem parse_rejects (s : Str) (h : spelled s = none) : ∃ e, Rgb.try_from_Hex ⟨s⟩ = .error e := by
+theorem parse_rejects (s : Str) (h : spelled s = none) : ∃ e, HexHand.Rgb.try_from_Hex ⟨s⟩ = .error e := by
   rcases parse_spec s with ⟨r, g, b, _, h2⟩ | ⟨e, h1, _⟩
   · rw [h] at h2; cases h2
   · exact ⟨e, h1⟩
 
 /-- `Ok` or `Err` on every input (there is no other outcome in this model: no panic) -/
 theorem parse_total (s : Str) :
-    (∃ c, Rgb.try_from_Hex ⟨s⟩ = .ok c) ∨ (∃ e, Rgb.try_from_Hex ⟨s⟩ = .error e) := by
+    (∃ c, HexHand.Rgb.try_from_Hex ⟨s⟩ = .ok c) ∨ (∃ e, HexHand.Rgb.try_from_Hex ⟨s⟩ = .error e) := by
   rcases parse_spec s with ⟨r, g, b, h1, _⟩ | ⟨e, h1, _⟩
   · exact .inl ⟨_, h1⟩
   · exact .inr ⟨e, h1⟩
@@ -183,7 +183,7 @@ theorem parse_total (s : Str) :
 /-- long form made explicit: more than four bytes and success force six leading hexadecimal digits
 (after the optional '#') that spell the result -/
 theorem parse_faithful_long (s : Str) (c : Rgb) (hlen : 4 < byteLength s)
-    (h : Rgb.try_from_Hex ⟨s⟩ = .ok c) :
+    (h : HexHand.Rgb.try_from_Hex ⟨s⟩ = .ok c) :
     ∃ d0 d1 d2 d3 d4 d5 rest, stripHash s = d0 :: d1 :: d2 :: d3 :: d4 :: d5 :: rest ∧
       isHexDigit d0 ∧ isHexDigit d1 ∧ isHexDigit d2 ∧ isHexDigit d3 ∧ isHexDigit d4 ∧ isHexDigit d5 ∧
       c = ⟨16 * digitVal d0 + digitVal d1, 16 * digitVal d2 + digitVal d3, 16 * digitVal d4 + digitVal d5⟩ := by
@@ -203,7 +203,7 @@ theorem parse_faithful_long (s : Str) (c : Rgb) (hlen : 4 < byteLength s)
 /-- short form made explicit: at most four bytes and success force three leading hexadecimal digits
 (after the optional '#'), and the result is each digit doubled -/
 theorem parse_faithful_short (s : Str) (c : Rgb) (hlen : byteLength s ≤ 4)
-    (h : Rgb.try_from_Hex ⟨s⟩ = .ok c) :
+    (h : HexHand.Rgb.try_from_Hex ⟨s⟩ = .ok c) :
     ∃ d0 d1 d2 rest, stripHash s = d0 :: d1 :: d2 :: rest ∧
       isHexDigit d0 ∧ isHexDigit d1 ∧ isHexDigit d2 ∧
       c = ⟨16 * digitVal d0 + digitVal d0, 16 * digitVal d1 + digitVal d1, 16 * digitVal d2 + digitVal d2⟩ := by
@@ -221,7 +221,7 @@ theorem parse_faithful_short (s : Str) (c : Rgb) (hlen : byteLength s ≤ 4)
     · cases h'
 
 /-- the result of a successful parse is an 8-bit colour -/
-theorem parse_result_u8 (s : Str) (c : Rgb) (h : Rgb.try_from_Hex ⟨s⟩ = .ok c) :
+theorem parse_result_u8 (s : Str) (c : Rgb) (h : HexHand.Rgb.try_from_Hex ⟨s⟩ = .ok c) :
     c.r ≤ 255 ∧ c.g ≤ 255 ∧ c.b ≤ 255 := by
   have hv : ∀ d, isHexDigit d → digitVal d ≤ 15 := by
     intro d hd; unfold isHexDigit at hd; unfold digitVal; repeat' (first | omega | split)
@@ -240,7 +240,7 @@ theorem parse_result_u8 (s : Str) (c : Rgb) (h : Rgb.try_from_Hex ⟨s⟩ = .ok 
 theorem parse_accepts_six (d0 d1 d2 d3 d4 d5 : Nat) (rest : Str)
     (h0 : isHexDigit d0) (h1 : isHexDigit d1) (h2 : isHexDigit d2)
     (h3 : isHexDigit d3) (h4 : isHexDigit d4) (h5 : isHexDigit d5) :
-    Rgb.try_from_Hex ⟨d0 :: d1 :: d2 :: d3 :: d4 :: d5 :: rest⟩ =
+    HexHand.Rgb.try_from_Hex ⟨d0 :: d1 :: d2 :: d3 :: d4 :: d5 :: rest⟩ =
       .ok ⟨16 * digitVal d0 + digitVal d1, 16 * digitVal d2 + digitVal d3, 16 * digitVal d4 + digitVal d5⟩ := by
   apply parse_complete
   have hb : ∀ c, 1 ≤ utf8Bytes c := by intro c; unfold utf8Bytes; repeat' (first | omega | split)
@@ -259,7 +259,7 @@ theorem parse_accepts_six (d0 d1 d2 d3 d4 d5 : Nat) (rest : Str)
 theorem parse_accepts_hash_six (d0 d1 d2 d3 d4 d5 : Nat) (rest : Str)
     (h0 : isHexDigit d0) (h1 : isHexDigit d1) (h2 : isHexDigit d2)
     (h3 : isHexDigit d3) (h4 : isHexDigit d4) (h5 : isHexDigit d5) :
-    Rgb.try_from_Hex ⟨35 :: d0 :: d1 :: d2 :: d3 :: d4 :: d5 :: rest⟩ =
+    HexHand.Rgb.try_from_Hex ⟨35 :: d0 :: d1 :: d2 :: d3 :: d4 :: d5 :: rest⟩ =
       .ok ⟨16 * digitVal d0 + digitVal d1, 16 * digitVal d2 + digitVal d3, 16 * digitVal d4 + digitVal d5⟩ := by
   apply parse_complete
   have hb : ∀ c, 1 ≤ utf8Bytes c := by intro c; unfold utf8Bytes; repeat' (first | omega | split)
@@ -272,7 +272,7 @@ theorem parse_accepts_hash_six (d0 d1 d2 d3 d4 d5 : Nat) (rest : Str)
 
 /-- three hexadecimal digits: each digit doubled -/
 theorem parse_accepts_three (d0 d1 d2 : Nat) (h0 : isHexDigit d0) (h1 : isHexDigit d1) (h2 : isHexDigit d2) :
-    Rgb.try_from_Hex ⟨[d0, d1, d2]⟩ = .ok ⟨17 * digitVal d0, 17 * digitVal d1, 17 * digitVal d2⟩ := by
+    HexHand.Rgb.try_from_Hex ⟨[d0, d1, d2]⟩ = .ok ⟨17 * digitVal d0, 17 * digitVal d1, 17 * digitVal d2⟩ := by
   apply parse_complete
   have hb : ∀ c, isHexDigit c → utf8Bytes c = 1 := by
     intro c hc; unfold isHexDigit at hc; unfold utf8Bytes; rw [if_pos (by omega)]
@@ -287,7 +287,7 @@ theorem parse_accepts_three (d0 d1 d2 : Nat) (h0 : isHexDigit d0) (h1 : isHexDig
 
 /-- '#' followed by three hexadecimal digits -/
 theorem parse_accepts_hash_three (d0 d1 d2 : Nat) (h0 : isHexDigit d0) (h1 : isHexDigit d1) (h2 : isHexDigit d2) :
-    Rgb.try_from_Hex ⟨[35, d0, d1, d2]⟩ = .ok ⟨17 * digitVal d0, 17 * digitVal d1, 17 * digitVal d2⟩ := by
+    HexHand.Rgb.try_from_Hex ⟨[35, d0, d1, d2]⟩ = .ok ⟨17 * digitVal d0, 17 * digitVal d1, 17 * digitVal d2⟩ := by
   apply parse_complete
   have hb : ∀ c, isHexDigit c → utf8Bytes c = 1 := by
     intro c hc; unfold isHexDigit at hc; unfold utf8Bytes; rw [if_pos (by omega)]
@@ -302,7 +302,7 @@ theorem parse_accepts_hash_three (d0 d1 d2 : Nat) (h0 : isHexDigit d0) (h1 : isH
 in one of the six colour positions of a text of more than four bytes: error -/
 theorem parse_rejects_long (s : Str) (hlen : 4 < byteLength s) (i : Nat) (hi : i < 6) (ch : Nat)
     (hget : (stripHash s)[i]? = some ch) (hnd : ¬ isHexDigit ch) :
-    ∃ e, Rgb.try_from_Hex ⟨s⟩ = .error e := by
+    ∃ e, HexHand.Rgb.try_from_Hex ⟨s⟩ = .error e := by
   apply parse_rejects
   have hn : ¬ byteLength s ≤ 4 := by omega
   simp only [spelled, if_neg hn]
@@ -328,7 +328,7 @@ theorem parse_rejects_long (s : Str) (hlen : 4 < byteLength s) (i : Nat) (hi : i
 /-- the same for the three colour positions of a text of at most four bytes -/
 theorem parse_rejects_short (s : Str) (hlen : byteLength s ≤ 4) (i : Nat) (hi : i < 3) (ch : Nat)
     (hget : (stripHash s)[i]? = some ch) (hnd : ¬ isHexDigit ch) :
-    ∃ e, Rgb.try_from_Hex ⟨s⟩ = .error e := by
+    ∃ e, HexHand.Rgb.try_from_Hex ⟨s⟩ = .error e := by
   apply parse_rejects
   simp only [spelled, if_pos hlen]
   match stripHash s, hget with
@@ -348,7 +348,7 @@ theorem parse_rejects_short (s : Str) (hlen : byteLength s ≤ 4) (i : Nat) (hi 
 in a text of more than four bytes; fewer than three in a text of at most four bytes) -/
 theorem parse_rejects_missing (s : Str)
     (h : (4 < byteLength s ∧ (stripHash s).length < 6) ∨ (byteLength s ≤ 4 ∧ (stripHash s).length < 3)) :
-    ∃ e, Rgb.try_from_Hex ⟨s⟩ = .error e := by
+    ∃ e, HexHand.Rgb.try_from_Hex ⟨s⟩ = .error e := by
   apply parse_rejects
   rcases h with ⟨h1, h2⟩ | ⟨h1, h2⟩
   · have hn : ¬ byteLength s ≤ 4 := by omega
@@ -378,26 +378,26 @@ theorem not_hexDigit_of_multibyte (ch : Nat) (h : 128 ≤ ch) : ¬ isHexDigit ch
 R, G, B order; for an 8-bit colour they are lower-case hexadecimal digits (`format_all_lower`:
 `c.r / 16 < 16` needs `c.r ≤ 255`) -/
 theorem format_canonical (c : Rgb) :
-    (Hex.from_Rgb c)._0 =
+    (HexHand.Hex.from_Rgb c)._0 =
       [35, lowerHexDigit (c.r / 16), lowerHexDigit (c.r % 16),
            lowerHexDigit (c.g / 16), lowerHexDigit (c.g % 16),
            lowerHexDigit (c.b / 16), lowerHexDigit (c.b % 16)] := by
-  have : ∀ d, hexDigitChar d = lowerHexDigit d := by
-    intro d; unfold hexDigitChar lowerHexDigit; split <;> omega
-  simp [Hex.from_Rgb, hex2, this]
+  have : ∀ d, HexHand.hexDigitChar d = lowerHexDigit d := by
+    intro d; unfold HexHand.hexDigitChar lowerHexDigit; split <;> omega
+  simp [HexHand.Hex.from_Rgb, HexHand.hex2, this]
 
 /-- the six characters after '#' really are lower-case hexadecimal digits -/
 theorem lowerHexDigit_is_lower (d : Nat) (h : d < 16) : isLowerHexDigit (lowerHexDigit d) := by
   unfold isLowerHexDigit lowerHexDigit; split <;> omega
 
 theorem format_all_lower (c : Rgb) (hr : c.r ≤ 255) (hg : c.g ≤ 255) (hb : c.b ≤ 255) :
-    ∃ t, (Hex.from_Rgb c)._0 = 35 :: t ∧ t.length = 6 ∧ ∀ ch ∈ t, isLowerHexDigit ch := by
+    ∃ t, (HexHand.Hex.from_Rgb c)._0 = 35 :: t ∧ t.length = 6 ∧ ∀ ch ∈ t, isLowerHexDigit ch := by
   refine ⟨_, format_canonical c, rfl, ?_⟩
   intro ch hch
   simp only [List.mem_cons, List.mem_nil_iff, or_false] at hch
   rcases hch with rfl | rfl | rfl | rfl | rfl | rfl <;> apply lowerHexDigit_is_lower <;> omega
 
-theorem format_length (c : Rgb) : (Hex.from_Rgb c)._0.length = 7 := rfl
+theorem format_length (c : Rgb) : (HexHand.Hex.from_Rgb c)._0.length = 7 := rfl
 
 /-- the digit written for `d < 16` reads back as `d` -/
 theorem digitVal_lowerHexDigit (d : Nat) (h : d < 16) :
@@ -413,8 +413,8 @@ theorem digitVal_lowerHexDigit (d : Nat) (h : d < 16) :
 
 /-- **format_parse_roundtrip**: parsing the formatted text returns the colour -/
 theorem format_parse_roundtrip (c : Rgb) (hr : c.r ≤ 255) (hg : c.g ≤ 255) (hb : c.b ≤ 255) :
-    Rgb.try_from_Hex (Hex.from_Rgb c) = .ok c := by
-  have e : Hex.from_Rgb c = ⟨(Hex.from_Rgb c)._0⟩ := rfl
+    HexHand.Rgb.try_from_Hex (HexHand.Hex.from_Rgb c) = .ok c := by
+  have e : HexHand.Hex.from_Rgb c = ⟨(HexHand.Hex.from_Rgb c)._0⟩ := rfl
   rw [e, format_canonical c]
   have r1 := digitVal_lowerHexDigit (c.r / 16) (by omega)
   have r2 := digitVal_lowerHexDigit (c.r % 16) (by omega)
@@ -441,34 +441,34 @@ example : spelled [35, 54, 54, 65, 65, 55, 55] = some (102, 170, 119) := by deci
 example : spelled [54, 54, 97, 97, 55, 55] = some (102, 170, 119) := by decide
 example : spelled [35, 54, 65, 55] = some (102, 170, 119) := by decide
 example : spelled [54, 97, 55] = some (102, 170, 119) := by decide
-example : Rgb.try_from_Hex ⟨[35, 54, 54, 65, 65, 55, 55]⟩ = .ok ⟨102, 170, 119⟩ := by decide
-example : Rgb.try_from_Hex ⟨[35, 54, 65, 55]⟩ = .ok ⟨102, 170, 119⟩ := by decide
+example : HexHand.Rgb.try_from_Hex ⟨[35, 54, 54, 65, 65, 55, 55]⟩ = .ok ⟨102, 170, 119⟩ := by decide
+example : HexHand.Rgb.try_from_Hex ⟨[35, 54, 65, 55]⟩ = .ok ⟨102, 170, 119⟩ := by decide
 -- formatting (17, 255, 99) gives "#11ff63"
-example : (Hex.from_Rgb ⟨17, 255, 99⟩)._0 = [35, 49, 49, 102, 102, 54, 51] := by decide
+example : (HexHand.Hex.from_Rgb ⟨17, 255, 99⟩)._0 = [35, 49, 49, 102, 102, 54, 51] := by decide
 -- hypotheses of the acceptance theorems: 'F', 'f', '0' are digits, 'g', '#', '+', '€' are not
 example : isHexDigit 70 ∧ isHexDigit 102 ∧ isHexDigit 48 ∧ ¬ isHexDigit 103 ∧ ¬ isHexDigit 35
     ∧ ¬ isHexDigit 43 ∧ ¬ isHexDigit 8364 := by decide
 -- rejection: "+1+2+3" (a sign is not a digit), "#12345" (too short), "12" , "" , "ééé" (6 bytes, 3 chars),
 -- "€€" (6 bytes), "12é456" (multi-byte in a colour position), "##123456"
 example : spelled [43, 49, 43, 50, 43, 51] = none := by decide
-example : ∃ e, Rgb.try_from_Hex ⟨[43, 49, 43, 50, 43, 51]⟩ = .error e :=
+example : ∃ e, HexHand.Rgb.try_from_Hex ⟨[43, 49, 43, 50, 43, 51]⟩ = .error e :=
   parse_rejects_long _ (by decide) 0 (by decide) 43 rfl (by decide)
-example : ∃ e, Rgb.try_from_Hex ⟨[35, 49, 50, 51, 52, 53]⟩ = .error e :=
+example : ∃ e, HexHand.Rgb.try_from_Hex ⟨[35, 49, 50, 51, 52, 53]⟩ = .error e :=
   parse_rejects_missing _ (.inl ⟨by decide, by decide⟩)
-example : ∃ e, Rgb.try_from_Hex ⟨[]⟩ = .error e := parse_rejects_missing _ (.inr ⟨by decide, by decide⟩)
-example : ∃ e, Rgb.try_from_Hex ⟨[233, 233, 233]⟩ = .error e :=
+example : ∃ e, HexHand.Rgb.try_from_Hex ⟨[]⟩ = .error e := parse_rejects_missing _ (.inr ⟨by decide, by decide⟩)
+example : ∃ e, HexHand.Rgb.try_from_Hex ⟨[233, 233, 233]⟩ = .error e :=
   parse_rejects_long _ (by decide) 0 (by decide) 233 rfl (not_hexDigit_of_multibyte _ (by decide))
-example : ∃ e, Rgb.try_from_Hex ⟨[8364, 8364]⟩ = .error e :=
+example : ∃ e, HexHand.Rgb.try_from_Hex ⟨[8364, 8364]⟩ = .error e :=
   parse_rejects_long _ (by decide) 1 (by decide) 8364 rfl (not_hexDigit_of_multibyte _ (by decide))
-example : ∃ e, Rgb.try_from_Hex ⟨[49, 50, 233, 52, 53, 54]⟩ = .error e :=
+example : ∃ e, HexHand.Rgb.try_from_Hex ⟨[49, 50, 233, 52, 53, 54]⟩ = .error e :=
   parse_rejects_long _ (by decide) 2 (by decide) 233 rfl (not_hexDigit_of_multibyte _ (by decide))
-example : ∃ e, Rgb.try_from_Hex ⟨[35, 35, 49, 50, 51, 52, 53, 54]⟩ = .error e :=
+example : ∃ e, HexHand.Rgb.try_from_Hex ⟨[35, 35, 49, 50, 51, 52, 53, 54]⟩ = .error e :=
   parse_rejects_long _ (by decide) 0 (by decide) 35 rfl (by decide)
 -- a short text with a multi-byte character: "1é" is 3 bytes, 2 characters
-example : ∃ e, Rgb.try_from_Hex ⟨[49, 233]⟩ = .error e :=
+example : ∃ e, HexHand.Rgb.try_from_Hex ⟨[49, 233]⟩ = .error e :=
   parse_rejects_short _ (by decide) 1 (by decide) 233 rfl (not_hexDigit_of_multibyte _ (by decide))
 -- characters after the colour positions are ignored ("leading digits"): "66AA77zz€" and "6a7z"
-example : Rgb.try_from_Hex ⟨[54, 54, 65, 65, 55, 55, 122, 122, 8364]⟩ = .ok ⟨102, 170, 119⟩ := by decide
-example : Rgb.try_from_Hex ⟨[54, 97, 55, 122]⟩ = .ok ⟨102, 170, 119⟩ := by decide
+example : HexHand.Rgb.try_from_Hex ⟨[54, 54, 65, 65, 55, 55, 122, 122, 8364]⟩ = .ok ⟨102, 170, 119⟩ := by decide
+example : HexHand.Rgb.try_from_Hex ⟨[54, 97, 55, 122]⟩ = .ok ⟨102, 170, 119⟩ := by decide
 
 end Props.C15
